@@ -271,4 +271,26 @@ let () =
        | other -> of_api (fun _ -> A "x") other)
     | _ -> raise (Parse_error "args"))
 
+
+(* ---- rebuilt arrays (C19) ---- *)
+let () =
+  register "rebuild_query" (function [L sources; L refs; L qs] ->
+      (* sources: ((docs avoid keys) ...); refs: ((el src i) | (fill)) in new row order *)
+      let arrs = List.map (function
+        | L [docs; avoid; keys] ->
+            let dd = to_docs docs in
+            (match M.index_g false (nat_of_int (List.length dd + 1)) dd with
+             | M.AOk ix -> (match M.select_chain (M.of_index ix (to_bool avoid)) (to_list nl keys) with
+                            | M.AOk a -> a | _ -> raise (Parse_error "select failed"))
+             | _ -> raise (Parse_error "index failed"))
+        | _ -> raise (Parse_error "source")) sources in
+      let els = List.map (function
+        | L [A "el"; s; i] -> (match M.element_of (List.nth arrs (to_int s)) (to_nat i) with
+                               | M.AOk e -> e | _ -> raise (Parse_error "element failed"))
+        | L [A "fill"] -> M.fill_element
+        | _ -> raise (Parse_error "ref")) refs in
+      let ix = M.rebuild els in
+      L [A "ok"; L (List.map (run_query ix) qs)]
+    | _ -> raise (Parse_error "args"))
+
 let () = main ()
